@@ -132,6 +132,67 @@ def _is_fancy_index(idx, ctx):
     return False
 
 
+def _truth_under(c, test, val):
+    """Truth value the condition c has when `test` is known to be `val`; None when not determined."""
+    if c == test:
+        return val
+    if c.op == "not":
+        r = _truth_under(c.args[0], test, val)
+        return None if r is None else not r
+    if c.op == "const" and isinstance(c.args[1], bool):
+        return c.args[1]
+    if c.op == "ifexp":
+        # a flag: ifexp(test2, const, const)
+        r = _truth_under(c.args[0], test, val)
+        if r is not None:
+            return _truth_under(c.args[1] if r else c.args[2], test, val)
+        a, b = _truth_under(c.args[1], test, val), _truth_under(c.args[2], test, val)
+        return a if a is not None and a == b else None
+    return None
+
+
+def _implied(test, val):
+    """(cond, value) facts implied by `test` being `val`: for a flag test = ifexp(c, K1, K2) with boolean constants, the
+    value of the flag pins c."""
+    out = [(test, val)]
+    if test.op == "ifexp" and all(x.op == "const" and isinstance(x.args[1], bool) for x in test.args[1:]):
+        k1, k2 = test.args[1].args[1], test.args[2].args[1]
+        if k1 != k2:
+            out += _implied(test.args[0], k1 == val)
+    if test.op == "not":
+        out += _implied(test.args[0], not val)
+    return out
+
+
+def _assume(t, test, val, depth=0):
+    """t with every conditional value whose test is decided by (test == val) replaced by the alternative it selects."""
+    facts = _implied(test, val)
+
+    def walk(x, dd):
+        if dd > 40 or not isinstance(x, tm.T):
+            return x
+        if x.op == "ifexp":
+            for f_t, f_v in facts:
+                r = _truth_under(x.args[0], f_t, f_v)
+                if r is not None:
+                    return walk(x.args[1] if r else x.args[2], dd + 1)
+        if x.op in ("const", "param", "alloc", "ext", "global"):
+            return x
+        new = []
+        changed = False
+        for a in x.args:
+            if isinstance(a, tm.T):
+                b = walk(a, dd + 1)
+            elif isinstance(a, tuple):
+                b = tuple(walk(y, dd + 1) if isinstance(y, tm.T) else (tuple(walk(z, dd + 1) if isinstance(z, tm.T) else z for z in y) if isinstance(y, tuple) else y) for y in a)
+            else:
+                b = a
+            changed = changed or (b is not a and b != a)
+            new.append(b)
+        return tm.T(x.op, *new) if changed else x
+    return walk(t, depth)
+
+
 def roots(t, ctx, depth=0, seen=None):
     """Set of storage roots the value of t may share."""
     if depth > 60:
@@ -146,9 +207,17 @@ def roots(t, ctx, depth=0, seen=None):
         return {("GLOBAL", "%s.%s" % t.args[:2])}
     if op == "alloc":
         return {FRESH}
-    if op in ("phi", "ifexp"):
+    if op == "ifexp":
+        # guard-aware: inside the branch taken when the test holds (fails), every conditional value with the SAME test - also
+        # one reached through a flag that was itself set under that test - is replaced by its matching alternative.  This
+        # keeps correlated choices together (`if c: x = x.copy(); share = False` ... `x if not share else x.copy()`).
         out = set()
-        for a in (t.args if op == "phi" else t.args[1:]):
+        for branch, val in ((t.args[1], True), (t.args[2], False)):
+            out |= roots(_assume(branch, t.args[0], val), ctx, d, seen)
+        return out
+    if op == "phi":
+        out = set()
+        for a in t.args:
             out |= roots(a, ctx, d, seen)
         return out
     if op == "loopvar":
